@@ -209,3 +209,12 @@ package reconciling
 //@ ensures implies(base.openRangeAdditionalPlaceholderChars.isExplicit, same(result.openRangeAdditionalPlaceholderChars, base.openRangeAdditionalPlaceholderChars))
 //@ loop 1 invariant forall(q, 0, len(indentationElection.order), isIndent(indentationElection.order[q])) && forall(q, 0, len(lineEndingElection.order), isLE(lineEndingElection.order[q]))
 //@ loop 1 invariant elOk(lineEndingElection.votes, lineEndingElection.order) && elOk(indentationElection.votes, indentationElection.order) && elOk(dateUseDashes.votes, dateUseDashes.order) && elOk(timeUse24HourClock.votes, timeUse24HourClock.order) && elOk(rangesUseSpacesAroundDash.votes, rangesUseSpacesAroundDash.order) && elOk(openRangeAdditionalPlaceholderChars.votes, openRangeAdditionalPlaceholderChars.order)
+
+// ---------------------------------------------------------------------------------------------
+// reconciler.go — MakeResult (property C05): the safeguard. A result exists only if the edited text, parsed again by
+// the serial parser, has no errors; it carries exactly that text. Otherwise an error and no result.
+//@ func (*Reconciler).MakeResult
+//@ requires r != nil
+//@ ensures isnil(result1) == (result0 != nil)
+//@ ensures implies(result0 != nil, txt.valid(result0.AllSerialised))
+//@ loop 1 invariant true
